@@ -6,6 +6,7 @@ package main
 
 import (
 	"fmt"
+	"math"
 
 	gtfsrt "github.com/jamespfennell/gtfs/proto"
 	"google.golang.org/protobuf/proto"
@@ -20,7 +21,8 @@ func (g *gen) startTime() *string {
 	case 0:
 		return nil
 	case 1:
-		return ptr(g.pick([]string{"", "1:00:00", "25:10:30", "99:59:59", "00:00:00", "ab:cd:ef", "10:00:00 ", "10:00", "10:00:0x", "١٠:٠٠:٠٠"}))
+		return ptr(g.pick([]string{"", "1:00:00", "25:10:30", "99:59:59", "00:00:00", "ab:cd:ef", "10:00:00 ", "10:00", "10:00:0x", "١٠:٠٠:٠٠",
+			"+9:30:00", "09:+5:00", "-1:00:00", "09:30:+5", "09:30:-5", " 9:30:00", "24:30:00", "00:30:00", "9:30:00", "009:30:00", "0x:30:00", "1e:00:00"}))
 	default:
 		return ptr(fmt.Sprintf("%02d:%02d:%02d", g.r.Intn(30), g.r.Intn(60), g.r.Intn(60)))
 	}
@@ -30,7 +32,8 @@ func (g *gen) startDate() *string {
 	case 0:
 		return nil
 	case 1:
-		return ptr(g.pick([]string{"", "2023111", "202311140", "2023-11-14", "20231305", "20230231", "00000000", "20231105", "20230312", "99991231", "2023111x"}))
+		return ptr(g.pick([]string{"", "2023111", "202311140", "2023-11-14", "20231305", "20230231", "00000000", "20231105", "20230312", "99991231", "2023111x",
+			"00010101", "00010102", "00000615", "19000229", "21000229", "20240229", "20230229", "+2023111", "-2023111", "2023 114", "0x231114"}))
 	default:
 		return ptr(fmt.Sprintf("%04d%02d%02d", 2020+g.r.Intn(6), 1+g.r.Intn(12), 1+g.r.Intn(28)))
 	}
@@ -77,6 +80,9 @@ func (g *gen) rtEvent(base int64) *gtfsrt.TripUpdate_StopTimeEvent {
 			e.Time = ptr(int64(0))
 		case 1:
 			e.Time = ptr(g.i64())
+			if g.coin(0.3) {
+				e.Time = ptr(g.pick64([]int64{math.MinInt64, math.MinInt64 + 1000, math.MinInt64 + base, math.MaxInt64, math.MaxInt64 - base, -base, -1, 1}))
+			}
 		default:
 			e.Time = ptr(base + int64(g.r.Intn(5)) - 2)
 		}
@@ -194,7 +200,7 @@ func (g *gen) selector(mercury bool) *gtfsrt.EntitySelector {
 		s.RouteId = ptr(g.pick(rtRoutes))
 	}
 	if g.coin(0.25) {
-		s.RouteType = ptr(int32([]int{0, 1, 2, 3, 7, 8, 11, 12, 100, -1, 10000}[g.r.Intn(11)]))
+		s.RouteType = ptr(int32([]int{0, 1, 2, 3, 7, 8, 11, 12, 100, -1, 10000, 65536, 65537, 65539, 65536 + 11, 65536*7 + 12, 131072 + 3, 1<<24 + 2, 1<<31 - 65536 + 1, -65536 + 1, -65536, 256, 256 + 3, 1<<31 - 1, -(1 << 31)}[g.r.Intn(25)]))
 	}
 	if g.coin(0.25) {
 		s.DirectionId = ptr(uint32(g.r.Intn(3)))
@@ -314,16 +320,38 @@ func (g *gen) conflictFree(nyct, alerts bool) *gtfsrt.FeedMessage {
 		}
 		for k := 1 + g.r.Intn(3); k > 0; k-- {
 			sib := proto.Clone(base).(*gtfsrt.TripDescriptor)
-			switch g.r.Intn(3) {
+			var sib2 *gtfsrt.TripDescriptor
+			switch g.r.Intn(6) {
 			case 0:
 				sib.StartDate = nil
 			case 1:
-				sib.StartDate = ptr(g.pick([]string{"20240101", "20240102", "20231231"}))
-			default:
+				sib.StartDate = ptr(g.pick([]string{"20240101", "20240102", "20231231", "00010101", "00010102", "00000615", "99991231"}))
+				if (*sib.StartDate)[:3] == "000" {
+					// a date at or before year 1 next to the same trip without a date: "no date" sorts first whatever the date is
+					sib2 = proto.Clone(base).(*gtfsrt.TripDescriptor)
+					sib2.StartDate = nil
+				}
+			case 2:
 				sib.ScheduleRelationship = gtfsrt.TripDescriptor_ScheduleRelationship(g.r.Intn(4)).Enum()
+			case 3:
+				// the same instant spelled two ways - an after-midnight time on one service day, the plain time on the next -
+				// are two different trip identifiers (date and time are separate parts of the identifier)
+				sib2 = proto.Clone(base).(*gtfsrt.TripDescriptor)
+				h, mi := g.r.Intn(6), g.r.Intn(60)
+				sib.StartDate, sib.StartTime = ptr("20240101"), ptr(fmt.Sprintf("%02d:%02d:00", 24+h, mi))
+				sib2.StartDate, sib2.StartTime = ptr("20240102"), ptr(fmt.Sprintf("%02d:%02d:00", h, mi))
+			default:
+				// identifiers that coincide once their parts are glued together with a separator: "1_2"+"3" vs "1"+"2_3"
+				sib2 = proto.Clone(base).(*gtfsrt.TripDescriptor)
+				sep := g.pick([]string{"_", "|", "/", ":", " ", "\x00", ",", "-", ";", ""})
+				sib.TripId, sib.RouteId = ptr("1"+sep+"2"), ptr("3")
+				sib2.TripId, sib2.RouteId = ptr("1"), ptr("2"+sep+"3")
 			}
 			if distinct(sib) {
 				trips = append(trips, &tripPlan{td: sib, veh: -1})
+			}
+			if sib2 != nil && distinct(sib2) {
+				trips = append(trips, &tripPlan{td: sib2, veh: -1})
 			}
 		}
 	}
@@ -412,6 +440,11 @@ func (g *gen) conflictFree(nyct, alerts bool) *gtfsrt.FeedMessage {
 		}
 	}
 	g.r.Shuffle(len(es), func(i, j int) { es[i], es[j] = es[j], es[i] })
+	for _, e := range es {
+		if g.coin(0.08) {
+			e.IsDeleted = ptr(g.coin(0.7)) // not interpreted by the parser: flagged entities are entities like any other
+		}
+	}
 	m.Entity = es
 	return m
 }
@@ -429,14 +462,14 @@ func (g *gen) wild(nyct bool) *gtfsrt.FeedMessage {
 				tu.StopTimeUpdate = append(tu.StopTimeUpdate, g.rtStu(int64(ts), nyct))
 			}
 			if g.coin(0.5) {
-				tu.Vehicle = g.vehDesc(g.pick([]string{"v1", "v2", ""}))
+				tu.Vehicle = g.vehDesc(g.pick([]string{"v1", "v2", "", "0L 1118", "1M 0542"}))
 			}
 			e.TripUpdate = tu
 		}
 		if kind == 1 || g.coin(0.05) {
 			vp := g.vehiclePosition(ts)
 			if g.coin(0.7) {
-				vp.Vehicle = g.vehDesc(g.pick([]string{"v1", "v2", ""}))
+				vp.Vehicle = g.vehDesc(g.pick([]string{"v1", "v2", "", "0L 1118", "1M 0542"}))
 			}
 			if g.coin(0.6) {
 				vp.Trip = g.tripDesc(g.pick(rtTripIDs[:5]), nyct && g.coin(0.5))
@@ -445,6 +478,9 @@ func (g *gen) wild(nyct bool) *gtfsrt.FeedMessage {
 		}
 		if kind == 2 || g.coin(0.05) {
 			e.Alert = g.alert(nyct)
+		}
+		if g.coin(0.08) {
+			e.IsDeleted = ptr(g.coin(0.7))
 		}
 		m.Entity = append(m.Entity, e)
 	}
